@@ -1,4 +1,5 @@
 import FxVerif.Proofs.C18P
+import FxVerif.Model.C18Inv
 /-!
 # C18 — the WHOLE executeClaim transaction (`Gen.C18.executeClaimTxProg`)
 
@@ -9,7 +10,7 @@ opens is cache 2, a branch OF cache 1.  So a failure of the refund calls themsel
 no longer has to be assumed away: it makes the closure return the error, cache 1 is dropped and NOTHING is written.
 -/
 namespace FxVerif.Proofs.C18T
-open FxVerif.Gen.C18 FxVerif.Model.C18P FxVerif.Proofs.C18P
+open FxVerif.Gen.C18 FxVerif.Model.C18P FxVerif.Proofs.C18P FxVerif.Model.C18Inv
 
 /-- what is pending on the native action (cache 1) after the credits -/
 def txPre (env : Env) : List Tok := bciPre ++ toks "k.BridgeTokenToBaseCoin" (env.iters 1 0) 0
@@ -272,5 +273,116 @@ theorem mem_inactiveBlock (env : Env) (t : Tok) : ∀ P, t ∈ inactiveBlock env
     · obtain ⟨p, hp, r⟩ := ih h
       exact ⟨p, by omega, r⟩
     · exact ⟨P, by omega, h⟩
+
+/-! ## the designated outcomes, REGENERATED: the run of the same program in which the calls on the failed branch write nothing (`Model.C18Inv.strip`) -/
+
+
+theorem att_strip (env : Env) (it : Nat) (hp : NoPanic env) :
+    (run env (strip 1 attestationProg) it).1 = .brk ∧ (run env (strip 1 attestationProg) it).2.outer = attDesignated it := by
+  have hp' := fun n i => hp n i
+  unfold attestationProg
+  simp only [seqs, strip]
+  c18eval
+  repeat' c18split
+  all_goals simp [attDesignated, attPre, attPost]
+
+theorem ibc_strip (env : Env) (hp : NoPanic env) (hr : ibcReached env)
+    (hsync : env.cond "RecvPacket: ack != nil" 0 = true) (hsync' : env.cond "RecvPacket: ack == nil" 0 = false)
+    (hw : env.ok "k.ChannelKeeper.WriteAcknowledgement" 0 = true) (hf : ibcAppFails env ∨ ibcHookFails env) :
+    (run env (strip 2 recvPacketProg)).2.outer = ibcDesignated := by
+  have hp' := fun n i => hp n i
+  obtain ⟨r1, r2, r3, r4⟩ := hr
+  unfold recvPacketProg
+  simp only [seqs, strip]
+  c18eval
+  clear hp hp'
+  repeat' c18split
+  all_goals (simp [ibcAppFails, ibcHookFails, ibcDesignated] at hf ⊢; try simp_all)
+
+def S2Inv (env : Env) (o : List Tok) (f0 : List Nat) (i : Nat) (st : St) : Prop :=
+  st.outer = o ∧ st.caches = [(1, Ctx.outer, [])] ∧ st.failed = f0 ∧ BciAll2 env i
+
+def S2Post (env : Env) (o : List Tok) (f0 : List Nat) (n : Nat) (r : Flow × St) : Prop :=
+  r.2.outer = o ∧ r.2.caches = [(1, Ctx.outer, [])] ∧ r.2.failed = f0 ∧
+    ((BciAll2 env n ∧ r.1 = .norm) ∨ (¬ BciAll2 env n ∧ r.1 = .ret false))
+
+theorem strip_loop2 (env : Env) (hp : NoPanic env) (L : Stmt) (hL : loopOf (strip 1 executeClaimProg) 2 = some L)
+    (o : List Tok) (bad : List Nat) (evm : List (Nat × EvmKind)) (f0 : List Nat) :
+    S2Post env o f0 (env.iters 2 0) (exec env L 0 { outer := o, caches := [(1, Ctx.outer, [])], bad := bad, evm := evm, failed := f0 }) := by
+  simp [loopOf, executeClaimProg, seqs, strip] at hL
+  subst hL
+  rw [exec_loop, Nat.zero_mul]
+  refine iterate_inv_bdd _ (S2Inv env o f0) (S2Post env o f0 (env.iters 2 0)) (env.iters 2 0) 0 _
+    ⟨rfl, rfl, rfl, fun j hj => absurd hj (Nat.not_lt_zero j)⟩ ?_ ?_
+  · intro i st _ hi hst
+    obtain ⟨outer, caches, bad, evm, failed⟩ := st
+    obtain ⟨h1, h2, h3, h4⟩ := hst
+    simp only at h1 h2 h3
+    subst h1 h2 h3
+    have hp' := fun n i => hp n i
+    have hno : env.ok "k.BaseCoinToEvm" i = false → ¬ BciAll2 env (env.iters 2 0) := by
+      intro hf hall
+      have := hall i (by omega)
+      simp [hf] at this
+    by_cases h : env.ok "k.BaseCoinToEvm" i <;> c18eval
+    · exact ⟨rfl, rfl, rfl, all_succ _ i h4 h⟩
+    · exact ⟨rfl, rfl, rfl, Or.inr ⟨hno (by simpa using h), rfl⟩⟩
+  · intro st hst
+    obtain ⟨h1, h2, h3, h4⟩ := hst
+    simp at h4
+    exact ⟨h1, h2, h3, Or.inl ⟨h4, rfl⟩⟩
+
+theorem bci_strip (env : Env) (hp : NoPanic env)
+    (hfound : env.cond "ExecuteClaim: found" 0 = true)
+    (ht1 : env.cond "ExecuteClaim: externalClaim.(type) is *types.MsgSendToFxClaim" 0 = false)
+    (ht2 : env.cond "ExecuteClaim: externalClaim.(type) is *types.MsgBridgeCallClaim" 0 = true)
+    (hmod : env.ok "k.ak.GetAccount" 0 = true ∨ env.cond "Keeper.BridgeCallHandler: ok" 0 = false)
+    (hs : env.ok "k.bankKeeper.SendCoins" 0 = true) (ha : env.ok "k.AddOutgoingBridgeCall" 0 = true)
+    (hcred : BciAll1 env (env.iters 1 0)) (hcf : bciCachedFails env) :
+    (run env (strip 1 executeClaimProg)).1 = .ret true ∧ (run env (strip 1 executeClaimProg)).2.outer = bciDesignated env := by
+  have k1 := bci_loop1' env hp
+  have k2 := strip_loop2 env hp
+  have hp' := fun n i => hp n i
+  unfold executeClaimProg at k1 k2 ⊢
+  simp only [seqs, loopOf, strip, Nat.reduceBEq, ↓reduceIte] at k1 k2
+  simp only [run, seqs, strip, Nat.reduceBEq, ↓reduceIte]
+  generalize hL1 : Stmt.loop 1 _ = L1 at k1 k2 ⊢
+  generalize hL2 : Stmt.loop 2 _ = L2 at k1 k2 ⊢
+  have k1' := k1 L1 (by simp)
+  have k2' := k2 L2 (by simp)
+  clear k1 k2 hL1 hL2 hp
+  c18eval
+  repeat' c18split
+  all_goals try (simp_all; done)
+  all_goals (
+    generalize hr : exec env L1 0 _ = r1
+    have k : Bci1Post' env (env.iters 1 0) r1 := by rw [← hr]; exact k1' _ _
+    clear hr
+    obtain ⟨fl, ⟨outer, caches, bad, evm, failed⟩⟩ := r1
+    rcases k with ⟨hall1, _⟩ | ⟨hall1, h1, h2, h3, h4⟩
+    · exact absurd hcred hall1
+    · simp only at h1 h2 h3 h4
+      subst h1 h2 h3 h4
+      c18eval
+      generalize hr : exec env L2 0 _ = r2
+      have k : S2Post env (bciPre ++ toks "k.BridgeTokenToBaseCoin" (env.iters 1 0) 0) [] (env.iters 2 0) r2 := by rw [← hr]; exact k2' _ _ _ _
+      clear hr
+      obtain ⟨fl, ⟨outer, caches, bad, evm, failed⟩⟩ := r2
+      obtain ⟨h1, h2, h3, h5⟩ := k
+      simp only at h1 h2 h3
+      subst h1 h2 h3
+      rcases h5 with ⟨hall2, h5⟩ | ⟨hall2, h5⟩ <;> simp only at h5 <;> subst h5
+      · c18eval
+        repeat' c18split
+        all_goals (simp [bciCachedFails, bciDesignated, bciPre, hall2] at hcf ⊢; try simp_all)
+      · c18eval
+        repeat' c18split
+        all_goals (simp [bciCachedFails, bciDesignated, bciPre, hall2] at hcf ⊢; try simp_all))
+
+/-! ## concrete environment for the non-vacuity examples (condition names of the composed transaction program) -/
+
+def envTx : Env :=
+  { envOk with cond := fun t _ => t ∈ ["Run: has", "Keeper.ExecuteClaim: found", "Keeper.ExecuteClaim: externalClaim.(type) is *types.MsgBridgeCallClaim",
+      "Keeper.BridgeCallEvm: k.evmKeeper.IsContract(ctx, to)"] }
 
 end FxVerif.Proofs.C18T
